@@ -139,7 +139,13 @@ def atomic_write_octave(
             "path": target_path,
         }
 
-    # Step 3: CAS check if base_hash provided
+    # Step 3: CAS check if base_hash provided (a missing file can never match)
+    if base_hash and not path_obj.exists():
+        return {
+            "status": "error",
+            "error": f"Hash mismatch (expected {base_hash[:8]}..., file does not exist)",
+            "path": target_path,
+        }
     if base_hash and path_obj.exists():
         try:
             existing_content = path_obj.read_text(encoding="utf-8")
@@ -180,7 +186,7 @@ def atomic_write_octave(
                 os.fsync(f.fileno())
 
             # TOCTOU protection: recheck base_hash before replace
-            if base_hash and path_obj.exists():
+            if base_hash:
                 with open(target_path, encoding="utf-8") as verify_f:
                     verify_content = verify_f.read()
                 verify_hash = compute_hash(verify_content)
